@@ -1013,7 +1013,12 @@ func msgLenWithCompressionMap(dns *Msg, compression map[string]struct{}) int {
 }
 
 func domainNameLen(s string, off int, compression map[string]struct{}, compress bool) int {
-	if s == "" || s == "." {
+	if s == "" {
+		// packDomainName writes nothing for an empty name (RRs without rdata in
+		// a dynamic update), not even the root label.
+		return 0
+	}
+	if s == "." {
 		return 1
 	}
 
